@@ -393,6 +393,8 @@ def run(ck: Checker) -> None:
     ck.guard("R-POSTINIT-IDEMP", lambda: r_postinit_idemp(ck))
     from .c07 import r_xp_elements
     ck.guard("R-XP-ELEMENTS", lambda: r_xp_elements(ck))
+    from .c07 import r_xp_compile_each
+    ck.guard("R-NO-MEMO", lambda: r_xp_compile_each(ck, "R-NO-MEMO"))
     ck.guard("R-NO-MEMO", lambda: r_no_memo(ck))
     ck.require_count("R-EXC-ESCAPE", 4)
     ck.require_count("R-GRAM-EXH", 8)
